@@ -12,7 +12,7 @@ PROP = 'C02'
 MANIFEST = dict(
     technique='TLA+ model (EscapeOps/Escape on top of the TokenizerOps lexer) checked by TLC; escape_text and the real tokenizer run on the same exhaustive family and on seeded random Unicode strings, every record validated by TLC (EscapeTrace)',
     category='model_checking',
-    text='TLC checks the inverse law (one STRING token equal to s, then EOF; no raw quote; no raw line break in single-line mode; the closing quote is the appended one) for every string up to length 4 (5 thorough) over the 14 characters that matter to escaping, in both modes, on the string reader alone, on the whole lexer under four option sets and step by step; the real escape_text/Tokenizer are run on exactly that family (count handshake) and on seeded random strings over all Unicode scalar values, alone, embedded at token boundaries of larger texts, and in every position in which a writer of the tree embeds escaped text (52 positions: KeyValues1 value/name/block name via export and serialise; VMF entity key, value, comments, fixup value, side material, cordon and visgroup names; Output name/target/input/params with both separators through as_keyvalue, Entity.export and BSP.write_ent_data with use_comma_sep None/True/False; entity-lump key and value; DMX KV2 element type/name, attribute name, string and string-array values): a fixed list of hostile strings plus random ones in each position; TLC requires the token in that position to equal the string (or the composite value it is a field of) and the line to have the token count of the same line written with a harmless string; agreement of the whole line with the specified lexer and of the escaped spelling with the specified reader is reported as diag.* counts only.',
+    text='TLC checks the inverse law (one STRING token equal to s, then EOF; no raw quote; no raw line break in single-line mode; the closing quote is the appended one) for every string up to length 4 (5 thorough) over the 14 characters that matter to escaping, in both modes, on the string reader alone, on the whole lexer under four option sets and step by step; the real escape_text/Tokenizer are run on exactly that family (count handshake) and on seeded random strings over all Unicode scalar values, alone, embedded at token boundaries of larger texts, and in every position in which a writer of the tree embeds escaped text (70 positions, checked against a reflective enumeration of the str fields of Output, Entity, FixupValue, Side, Cordon, VisGroup, DMX Element/Attribute and Keyvalues: KeyValues1 value/name/block name via export and serialise; VMF entity key, value, comments, fixup value, side material, cordon and visgroup names; Output output/target/input/params/inst_out/inst_in with both separators; fixup variable names; logical_pos through as_keyvalue, Entity.export and BSP.write_ent_data with use_comma_sep None/True/False; entity-lump key and value; DMX KV2 element type/name, attribute name, string and string-array values): a fixed list of hostile strings plus random ones in each position; TLC requires the token in that position to equal the string (or the composite value it is a field of) and the line to have the token count of the same line written with a harmless string; agreement of the whole line with the specified lexer and of the escaped spelling with the specified reader is reported as diag.* counts only.',
     design_ref='4 (C02)',
     note='Trusts TLC and the projection (token name, value, line_num, exception type/message/line). Pure-Python tokenizer only (the Cython _tokenizer cannot be built here). Format limits respected per field: entity-lump positions get ASCII strings only (the lump is written as ASCII bytes); an empty entity comment is not written; the DMX attribute called name is the element name. Output fields are judged on the token (a separator character inside a field is the business of the Output grammar, C06).',
 )
@@ -78,8 +78,8 @@ def run(tier: str, seed: int) -> int:
             st = json.loads(core.run_driver('c02_driver.py', [mode, p], env=env).strip().splitlines()[-1])
             if mode == 'lines':
                 seen = {json.loads(ln)['writer'] for ln in p.read_text(encoding='utf-8').splitlines()}
-                if st['positions'] < 52 or len(seen) != st['positions']:
-                    raise core.MachineryError(f'writer positions exercised: {len(seen)} of {st["positions"]} (52 expected)')
+                if st['positions'] < 70 or len(seen) != st['positions']:
+                    raise core.MachineryError(f'writer positions exercised: {len(seen)} of {st["positions"]} (70 expected)')
                 cov['writer_positions'] = sorted(seen)
             outs.append(p)
         # 4. TLC validates every record (one pass)
